@@ -7,13 +7,14 @@ EXTENDS TextOps, Json, IOUtils
 
 Traces == JsonDeserialize(IOEnv.TRACE_FILE)
 
-VARIABLES tid, l, t, verdict
-vars == <<tid, l, t, verdict>>
+VARIABLES tid, l, t, sib, verdict
+vars == <<tid, l, t, sib, verdict>>
 Tr == Traces[tid]
 
 Init == /\ tid \in 1..Len(Traces)
         /\ l = 1
         /\ t = [chars |-> <<>>, base |-> 0]
+        /\ sib = [chars |-> <<>>, base |-> 0]      \* the object the current text was derived from (still alive)
         /\ verdict = "ok"
 
 RECURSIVE FirstBadPiece(_, _, _)
@@ -33,14 +34,22 @@ Judge(e, r) ==
     ELSE IF e.k = "rstrip_end" /\ CompareText(r.cur, e.obs) # "ok" /\ CompareText(RstripEndChars(t, e.n), e.obs) = "ok" THEN "ok"
     ELSE CompareText(r.cur, e.obs)
 
+\* calls that return a NEW object and leave the old one alive; "swap" continues with the old one:
+\* an edit of one must never show on the other (no shared span list / text)
+Deriving == {"new", "assemble", "join", "split", "divide", "index", "slice", "copy"}
+Derives(e, r) == \/ e.k \in (Deriving \ {"split", "divide"})
+                 \/ (e.k = "append_text" /\ e.via = "add")
+                 \/ (e.k \in {"split", "divide"} /\ e.pick >= 1 /\ e.pick <= Len(r.pieces))
+
 Step == /\ l <= Len(Tr) /\ verdict = "ok"
         /\ LET e == Tr[l]
-               r == Apply(t, e)
+               r == IF e.k = "swap" THEN Res(sib) ELSE Apply(t, e)
                v == Judge(e, r)
            IN /\ verdict' = IF v = "ok" THEN "ok" ELSE "step " \o ToString(l) \o " " \o e.k \o ": " \o v
               /\ t' = IF v = "ok" /\ r.err = "none"
                       THEN (IF e.k = "rstrip_end" /\ CompareText(r.cur, e.obs) # "ok" THEN Adopt(RstripEndChars(t, e.n), e.obs) ELSE Adopt(r.cur, e.obs))
                       ELSE t
+              /\ sib' = IF v # "ok" THEN sib ELSE IF e.k = "swap" THEN t ELSE IF r.err = "none" /\ Derives(e, r) THEN t ELSE sib
         /\ l' = l + 1 /\ UNCHANGED tid
 
 Spec == Init /\ [][Step]_vars
